@@ -229,6 +229,9 @@ class ObjectFactory:
         return secrets.OpaqueObject(opaque_data_type, opaque_data_value)
 
     def _build_cryptographic_parameters(self, value):
+        if value is None:
+            # The cryptographic parameters of key information are optional.
+            return {}
         cryptographic_parameters = {
             'block_cipher_mode': value.block_cipher_mode,
             'padding_method': value.padding_method,
